@@ -2,14 +2,43 @@
    Gen/StdList.v (regenerated from pkg/namer/std.list by `vh tables-C03`). *)
 Require Import Gengo.Base.Bytes Gengo.Model.CamelCase Gengo.Model.GoIdent Gengo.Model.Tracker
                Gengo.Model.TrackerSpec Gengo.Proofs.Tracker Gengo.Gen.StdList.
+Require Gengo.Model.TypeLit Gengo.Spec.TypeLit.
 
 (* std_tr is what std.go's init() builds (model of the repaired code) *)
-Lemma std_table_built : std_built true = Ok std_tr.
+Lemma std_table_built : std_built true universe_names = Ok std_tr.
 Proof. vm_compute. reflexivity. Qed.
 
-(* ... and the repairs did not change a single reserved name *)
-Lemma std_table_unchanged_by_fix : std_built false = Ok std_tr.
+(* ... and the repairs did not change a single reserved name: not fixes/C03-1, C03-2 ... *)
+Lemma std_table_unchanged_by_fix : std_built false [] = Ok std_tr.
 Proof. vm_compute. reflexivity. Qed.
+
+(* ... nor fixes/C03-3 (no candidate name of a std package is a predeclared identifier) *)
+Lemma std_table_unchanged_by_fix3 : std_built true [] = Ok std_tr.
+Proof. vm_compute. reflexivity. Qed.
+
+(* the universe scope of the toolchain (Gen/StdList.v universe_names, from go/types.Universe.Names()):
+   it has every predeclared identifier of the Go spec, only identifiers, no keyword, no repetition *)
+Lemma universe_covers_spec : subset_b spec_predeclared universe_names = true.
+Proof. vm_compute. reflexivity. Qed.
+
+Lemma universe_names_wf : forallb valid_name_b universe_names && nodup_b universe_names = true.
+Proof. vm_compute. reflexivity. Qed.
+
+(* ... and every type name C11's specification of name resolution (Spec/TypeLit.v) treats as
+   predeclared: C03_not_predeclared therefore discharges C11's hypothesis tracker_not_predeclared *)
+Lemma universe_covers_c11 : subset_b (map fst Spec.TypeLit.predeclared) universe_names = true.
+Proof. vm_compute. reflexivity. Qed.
+
+Lemma c11_predeclared_in_universe : forall n, Spec.TypeLit.is_predeclared n = true -> In n universe_names.
+Proof.
+  intros n H. unfold Spec.TypeLit.is_predeclared in H.
+  destruct (Model.TypeLit.alookup n Spec.TypeLit.predeclared) as [g|] eqn:E; [|discriminate]. clear H.
+  pose proof universe_covers_c11 as C. unfold subset_b in C. rewrite forallb_forall in C.
+  assert (Hin : In n (map fst Spec.TypeLit.predeclared)).
+  { clear C. induction Spec.TypeLit.predeclared as [|[k v] r IH]; cbn in E; [discriminate|].
+    destruct (bytes_eqb n k) eqn:Ek; [left; apply bytes_eqb_spec in Ek; subst; reflexivity|right; auto]. }
+  apply name_in_spec. exact (C n Hin).
+Qed.
 
 (* the list is inside the domain of the model *)
 Definition ascii_b (s : bytes) : bool := forallb (fun c => N.ltb (N_of_ascii c) 128) s.
@@ -22,11 +51,11 @@ Proof. vm_compute. reflexivity. Qed.
 (* the table is itself a tracker history (AddType of every line), so the general theorems apply to it *)
 Lemma std_table_is_history :
   exists texts snaps,
-    run true None [] (map OAdd (filter (fun l => negb (is_nil l)) std_lines)) = Ok (std_tr, texts, snaps).
+    run true universe_names None [] (map OAdd (filter (fun l => negb (is_nil l)) std_lines)) = Ok (std_tr, texts, snaps).
 Proof.
   pose proof std_table_built as B. unfold std_built, build_std in B.
-  rewrite (add_all_as_run true None []) in B. unfold run.
-  destruct (run_from true None [] empty_tracker (map OAdd (filter (fun l => negb (is_nil l)) std_lines)))
+  rewrite (add_all_as_run true universe_names None []) in B. unfold run.
+  destruct (run_from true universe_names None [] empty_tracker (map OAdd (filter (fun l => negb (is_nil l)) std_lines)))
     as [[[a b] c]| |]; try discriminate. inversion B; subst. eauto.
 Qed.
 
@@ -36,9 +65,34 @@ Lemma std_table_wf :
   (forall l, In l std_lines -> l <> [] -> exists n, lookup l (p2n std_tr) = Some n).
 Proof.
   destruct std_table_is_history as (texts & snaps & H). split; [|split].
-  - destruct (run_bijection _ _ _ _ _ _ _ H) as [B _]. exact B.
+  - destruct (run_bijection _ _ _ _ _ _ _ _ H) as [B _]. exact B.
   - eapply run_valid_names. exact H.
-  - intros l Hin Hne. apply keys_in_lookup. rewrite (run_exact_imports _ _ _ _ _ _ H).
+  - intros l Hin Hne. apply keys_in_lookup. rewrite (run_exact_imports _ _ _ _ _ _ _ H).
     unfold history_paths. apply in_flat_map. exists (OAdd l). split; [|cbn; auto].
     apply in_map. apply filter_In. split; [exact Hin|]. destruct l; [congruence|reflexivity].
+Qed.
+
+(* C03_not_predeclared for the universe of the current toolchain *)
+Lemma run_not_predeclared_universe : forall std self ops tr texts snaps,
+  run true universe_names std self ops = Ok (tr, texts, snaps) ->
+  forall p n, lookup p (p2n tr) = Some n ->
+    not_predeclared_b universe_names n = true /\ ~ In n spec_predeclared /\ Spec.TypeLit.is_predeclared n = false.
+Proof.
+  intros std self ops tr texts snaps H p n L.
+  pose proof (run_not_predeclared _ _ _ _ _ _ _ _ H p n L) as NP. split; [|split].
+  - unfold not_predeclared_b. destruct (name_in universe_names n) eqn:E; [|reflexivity].
+    apply name_in_spec in E. contradiction.
+  - intros Hin. apply NP. pose proof universe_covers_spec as C. unfold subset_b in C.
+    rewrite forallb_forall in C. apply name_in_spec. exact (C n Hin).
+  - destruct (Spec.TypeLit.is_predeclared n) eqn:E; [|reflexivity].
+    exfalso. apply NP. apply c11_predeclared_in_universe. exact E.
+Qed.
+
+Lemma old_predeclared_name_universe :
+  (exists tr texts snaps,
+    run true [] None (bs "m") (h_refs [bs "example.com/x/string"]) = Ok (tr, texts, snaps) /\
+    lookup (bs "example.com/x/string") (p2n tr) = Some (bs "string") /\ texts = [bs "string.T"])
+  /\ In (bs "string") universe_names /\ valid_name_b (bs "string") = true.
+Proof.
+  split; [exact old_predeclared_name|]. split; [apply name_in_spec; vm_compute; reflexivity|vm_compute; reflexivity].
 Qed.
